@@ -197,6 +197,9 @@ def check_C11(ctx):
         return model_broken(ctx)
     if mm:
         report_subview(ctx, mm)
+    # fixed witness histories (Sub(".") must be a new view, views of the current directory, ...)
+    from .c01 import fs_corpus_part
+    fs_corpus_part(ctx)
 
 
 CHECKS["C11"] = check_C11
